@@ -29,7 +29,7 @@ REQUIRED = ['%s/stays_connected' % f for f in sorted(RW.CONN)] + \
            ['%s/rejects_disconnected' % f for f in ('randmio_und_connected', 'latmio_und_connected')] + \
            ['%s/rejects_asymmetric' % f for f in ('randmio_und_connected', 'latmio_und_connected')]
 CASE_TIMEOUT = {'quick': 15.0, 'thorough': 90.0}
-POL = sorted(rngmod.POLICIES)
+POL = sorted(p for p in rngmod.POLICIES if p != 'stall')
 
 
 def hostile_und(seed, nmax):
